@@ -52,6 +52,12 @@ def configs(tier, seed):
                                 "trg": [TRG[rnd.randrange(3)] for _ in range(n)], "montrg": TRG[rnd.randrange(3)]})
                     if len(out) % 5 == 3 and n > 1:
                         out[-1]["names"] = "same" if len(out) % 10 == 3 else "none"
+    # many events (sizes straddling 32 and 64: reductions built from 32- or 64-bit groups have a partial last group)
+    # (more than a few words of events make the multi-word sequences too long for the budget: the line reduction of
+    #  70-130 sources is decided on the plain monitor, C13)
+    for n, dw in ((45, 16),):
+        out.append({"n": n, "dw": dw, "al": 0, "attach": "direct",
+                    "trg": [TRG[rnd.randrange(3)] for _ in range(n)], "montrg": "level"})
     # narrow buses: many-chunk (also non-power-of-two, padded) registers with few events
     for n, dw in ((5, 1), (3, 1), (7, 2), (5, 2), (7, 3), (4, 3)):
         for al in (0, 1, 2):
